@@ -12,7 +12,7 @@ import tlcrun  # noqa: E402
 NPROC = int(os.environ.get("VERIF_NPROC", "16"))
 
 MC_INVARIANTS = ["Inv_C01_ParentChild", "Inv_C01_PinWire", "Inv_C02_RefSets", "Inv_C02_OuterPins",
-                 "Inv_C02_Dropped", "Inv_C10_Unique", "Inv_C10_LegalIds", "Inv_OracleSane", "Inv_C08_Model", "Inv_C09_Model", "Inv_C07_Model", "Inv_CloneDefAgrees"]
+                 "Inv_C02_Dropped", "Inv_C10_Unique", "Inv_C10_LegalIds", "Inv_OracleSane", "Inv_C08_Model", "Inv_C09_Model", "Inv_C07_Model", "Inv_CloneDefAgrees", "Inv_C20_Model"]
 
 
 def mc_cfg(scope, depth, emit, module_consts=""):
@@ -100,6 +100,10 @@ def _run_group(harness, init, hist, cands, listeners):
                     break
                 s1 = harness.project(reg)
                 rec = {"t": "call", "call": sub, "out": out, "exc": exc, "same": s1 == s_prev, "state": s1}
+                if reg.last_ret is not None:
+                    rec["ret"] = reg.last_ret
+                if getattr(reg, "last_extra", None):
+                    rec.update(reg.last_extra)
                 if prev:
                     rec["pre_rel"] = prev
                 recs.append(rec)
